@@ -157,6 +157,7 @@ pub struct Op {
 }
 
 mod ops;
+mod ops_float;
 
 // ------------------------------------------------------------------------------------------------
 // tiny deterministic PRNG (splitmix64)
@@ -283,7 +284,7 @@ fn run_op(op: &Op, args: &[Arg], ignore_pre: bool) -> Value {
 }
 
 fn find_op(name: &str) -> &'static Op {
-    ops::OPS.iter().find(|o| o.name == name).unwrap_or_else(|| {
+    ops::OPS.iter().chain(ops_float::OPS_FLOAT.iter()).find(|o| o.name == name).unwrap_or_else(|| {
         eprintln!("unknown op {}", name);
         std::process::exit(2)
     })
@@ -294,7 +295,7 @@ fn main() {
     panic::set_hook(Box::new(|_| {}));
     match argv.get(1).map(|s| s.as_str()) {
         Some("ops") => {
-            for o in ops::OPS.iter() {
+            for o in ops::OPS.iter().chain(ops_float::OPS_FLOAT.iter()) {
                 println!("{} {:?}", o.name, o.sig);
             }
         }
